@@ -692,6 +692,18 @@ class Interp:
                 item = self.ev(v.args[0], frame)
                 self.assign(_as_store(tgt), self.seg_append(cur, [item]), frame)
                 return
+            if isinstance(cur, Seg) and cur.kind == 'list' and isinstance(tgt, ast.Subscript):
+                # container[literal key].append(x) on a list that symbolic_for turned into an accumulator: the entry is rebound
+                box = self.ev(tgt.value, frame)
+                key = self.ev_index(tgt.slice, frame)
+                if isinstance(box, (dict, SymMap)) and isinstance(key, str):
+                    item = self.ev(v.args[0], frame)
+                    new = self.seg_append(cur, [item])
+                    if isinstance(box, SymMap):
+                        box.store(key, new)
+                    else:
+                        box[key] = new
+                    return
         self.ev(v, frame)
 
     def rowsel_extend(self, rs, item):
@@ -1863,6 +1875,23 @@ class Interp:
                 env[nm] = Havoc(f'loop-carried variable {nm}', st.lineno)
             else:
                 env[nm] = acc
+        # lists kept in a dictionary under a literal key and appended to in the body:  box[key].append(x)
+        for n_ in ast.walk(ast.Module(body=st.body, type_ignores=[])):
+            if isinstance(n_, ast.Call) and isinstance(n_.func, ast.Attribute) and n_.func.attr == 'append' and isinstance(n_.func.value, ast.Subscript) \
+                    and isinstance(n_.func.value.value, ast.Name) and n_.func.value.value.id in env:
+                box = env[n_.func.value.value.id]
+                try:
+                    key = self.ev_index(n_.func.value.slice, frame)
+                except (Unsupported, KeyError):
+                    continue
+                if isinstance(box, (dict, SymMap)) and isinstance(key, str):
+                    curv = box.lookup(key) if isinstance(box, SymMap) else box.get(key)
+                    if isinstance(curv, list):
+                        acc = Seg('list', [list(curv)] if curv else [])
+                        if isinstance(box, SymMap):
+                            box.store(key, acc)
+                        else:
+                            box[key] = acc
         for (basename, attr) in carried['attrs']:
             o = env.get(basename, None)
             if isinstance(o, Obj) and o.has(attr):
